@@ -749,6 +749,7 @@ func checkMassBalance(p *Program, r *Report) {
 	}
 	sort.Strings(names)
 	nModels, nPaths, nDeleg, nShares := 0, 0, 0, 0
+	notFollowed := 0
 	r.Rule("R12.5", "shares are shares: where a stored mass or a mass output is computed as M·X/D with D a sum of volumes, X (a rate weighted by the timestep) is one of the summands of D on every path — so what is apportioned to the outflow or the store can never exceed the mass there is, and the final clamp at zero cannot hide mass being created")
 	nRemovals := map[*ssa.Call]bool{}
 	for _, name := range names {
@@ -991,6 +992,27 @@ func checkMassBalance(p *Program, r *Report) {
 			}
 		}
 		if !okStates {
+			// the stores may be kept in fields of a local struct that methods advance (`masses.receive(…)`,
+			// `masses.deposit()`): the path engine follows scalar helpers, not objects mutated through a pointer. Such a
+			// kernel is counted as not analysed (evidence), which is weaker than an alarm on a form that is not wrong
+			inStruct := false
+			for _, ret := range returnsOf(k) {
+				for j := 0; j < nSt && resBase+j < len(ret.Results); j++ {
+					for _, o := range origins(ret.Results[resBase+j]) {
+						if ld, ok := o.(*ssa.UnOp); ok && ld.Op == token.MUL {
+							if fa, ok := ld.X.(*ssa.FieldAddr); ok {
+								if a, ok := fa.X.(*ssa.Alloc); ok && a.Parent() == k {
+									inStruct = true
+								}
+							}
+						}
+					}
+				}
+			}
+			if inStruct {
+				notFollowed++
+				continue
+			}
 			r.Undecided("R12.2", key+":states", p.Pos(k.Pos()), "a returned state is not the loop-carried value of the time loop")
 			continue
 		}
@@ -1370,6 +1392,7 @@ func checkMassBalance(p *Program, r *Report) {
 		}
 	}
 	r.Analysed["R12.2 models"] = nModels
+	r.Analysed["R12.2 kernels NOT analysed (stores kept in a struct advanced by methods: not followed by the path engine)"] = notFollowed
 	r.Analysed["R12.2 feasible paths through one timestep"] = nPaths
 	r.Analysed["R12.3 delegations"] = nDeleg
 	r.Floor("R12.2", "models with a mass budget", nModels, 7)
